@@ -17,6 +17,36 @@ TABLES = [
     ("mos_op", "src/mos6502/mod.rs", r"impl lexer::OperationName for OperationName"),
     ("mos_reg", "src/mos6502/mod.rs", r"impl lexer::RegisterName for RegisterName"),
 ]
+# the Display impls (how a name is written when a token is turned back into text by @string / @label / @parse)
+DISPLAYS = [
+    ("z80_op", "src/z80/mod.rs", r"impl Display for OperationName"),
+    ("z80_reg", "src/z80/mod.rs", r"impl Display for RegisterName"),
+    ("sm83_op", "src/sm83/mod.rs", r"impl Display for OperationName"),
+    ("sm83_reg", "src/sm83/mod.rs", r"impl Display for RegisterName"),
+    ("mos_op", "src/mos6502/mod.rs", r"impl Display for OperationName"),
+    ("mos_reg", "src/mos6502/mod.rs", r"impl Display for RegisterName"),
+]
+DARM = re.compile(r'^\s*Self::(\w+)\s*=>\s*"([^"]*)"\s*,?\s*$')
+
+def extract_display(path, header):
+    src = open(os.path.join(REPO, path)).read()
+    m = re.search(header, src)
+    if not m:
+        return None
+    rest = src[m.end():]
+    m2 = re.search(r"match\s+self\s*\{", rest)
+    if not m2:
+        return None
+    rows = {}
+    for line in rest[m2.end():].split("\n"):
+        if not line.strip():
+            continue
+        a = DARM.match(line)
+        if not a:
+            break                # the end of the match (or an arm we do not understand: the rows are then incomplete)
+        rows[a.group(1)] = a.group(2)
+    return rows
+
 ARM = re.compile(r'^\s*((?:"[^"]*"\s*\|\s*)*"[^"]*")\s*=>\s*Some\(Self::(\w+)\)\s*,?\s*$')
 
 def extract(path, header):
@@ -64,6 +94,17 @@ def generate():
         for i, (sp, v) in enumerate(rows):
             out.append("Definition %s_%s : N := %d." % (prefix, v, i))
         out.append("")
+        dh = [d for d in DISPLAYS if d[0] == prefix]
+        if dh:
+            disp = extract_display(dh[0][1], dh[0][2])
+            if disp is None or any(v not in disp for _, v in rows):
+                status[prefix + "_display"] = False
+                out.append("Definition %s_display : list (N * bytes) := []. (* NOT PARSED *)" % prefix)
+            else:
+                status[prefix + "_display"] = True
+                out.append("Definition %s_display : list (N * bytes) :=" % prefix)
+                out.append("  [ " + ";\n    ".join("(%d, %s)" % (i, coq_bytes(disp[v])) for i, (sp, v) in enumerate(rows)) + " ].")
+            out.append("")
     text = "\n".join(out) + "\n"
     os.makedirs(os.path.join(COQ, "Gen"), exist_ok=True)
     p = os.path.join(COQ, "Gen", "Tables.v")
